@@ -161,6 +161,7 @@ static int g_login_seed, g_login_calls, g_login_seed2;
 static unsigned char g_login_out[16], g_login_out2[16];
 size_t g_m;
 static const void *g_cpy_dst, *g_cpy_src; static size_t g_cpy_n; static int g_cpy_calls;
+static int g_in_cpy_calls; static size_t g_in_cpy_off, g_in_cpy_n; static const void *g_in_cpy_src, *g_unp_buf;      /* ghost: copy into the upstream reassembly buffer */
 
 int nondet_int(void);
 unsigned nondet_unsigned(void);
@@ -249,7 +250,7 @@ void *verif_memcpy_t(void *dst, const void *src, size_t n)
 		else if (off == offsetof(struct tun_user, q.from2)) verif_addr_copy(&SL.q.from2, src, n);
 		else if (off == offsetof(struct tun_user, q_sendrealsoon.from)) verif_addr_copy(&SL.q_sendrealsoon.from, src, n);
 		else if (off == offsetof(struct tun_user, q_sendrealsoon.from2)) verif_addr_copy(&SL.q_sendrealsoon.from2, src, n);
-		else if (IN_MEMBER(off, inpacket.data)) verif_any_payload(&SL.inpacket);
+		else if (IN_MEMBER(off, inpacket.data)) { g_in_cpy_calls++; g_in_cpy_off = off - offsetof(struct tun_user, inpacket.data); g_in_cpy_n = n; g_in_cpy_src = src; verif_any_payload(&SL.inpacket); }
 		else if (IN_MEMBER(off, outpacket.data)) verif_any_payload(&SL.outpacket);
 		else if (IN_MEMBER(off, outpacketq[0].data)) verif_any_payload(&SL.outpacketq[0]);
 		else if (IN_MEMBER(off, outpacketq[1].data)) verif_any_payload(&SL.outpacketq[1]);
@@ -408,6 +409,7 @@ int unpack_data(char *buf, size_t buflen, char *data, size_t datalen, const stru
 {
 	__CPROVER_assert(__CPROVER_w_ok(buf, buflen), "unpack_data: output writable");
 	__CPROVER_assert(datalen == 0 || __CPROVER_rw_ok(data, datalen), "unpack_data: encoded text inside the name copy");
+	g_unp_buf = buf;
 	__CPROVER_havoc_slice(buf, 32);
 	buf[0] = g_unpack0;
 	{ int k; for (k = 0; k < 32; k++) g_unpacked[k] = (unsigned char)buf[k]; }   /* ghost copy of what was decoded */
@@ -979,7 +981,7 @@ void h_cmd_stream(void)
 #endif
 #endif
 	for (i = 0; i < 8; i++) g_b32_script[i] = nondet_int();
-	g_chunk_calls = g_ack_calls = g_full_calls = g_cache_hits = g_qmem_hits = 0; g_eq_q = g_eq_qs = 0;
+	g_chunk_calls = g_ack_calls = g_full_calls = g_cache_hits = g_qmem_hits = 0; g_eq_q = g_eq_qs = 0; g_in_cpy_calls = 0;
 	struct snap s0 = take_snap();
 	_Bool auth = LIVE0(uid) && slot.authenticated;
 	int before = (g_q.id != 0) + TOKENS(slot.q) + TOKENS(slot.q_sendrealsoon);
@@ -996,6 +998,20 @@ void h_cmd_stream(void)
 	__CPROVER_assert(!(g_cache_hits || g_qmem_hits) || (PRIV_UNCHANGED(s0) && slot.last_pkt == s0.last_pkt && g_answers == 1 && g_full_calls == 0 && g_ack_calls == 0 && g_chunk_calls == 0 && slot.q.id2 == hq_id2 && slot.q_sendrealsoon.id2 == hs_id2),
 			 "a cache / query-memory hit is answered once and neither appends upstream data nor moves the downstream stream");
 	__CPROVER_assert(g_full_calls <= 1 && (g_tun_writes == 0 || g_full_calls == 1), "at most one packet is delivered, and only through handle_full_packet");
+#if H_CMD != 'P'
+	/* C01: what is appended to the upstream reassembly buffer is exactly the decoded data part of this query, placed at the
+	 * fill level (0 after a new sequence number), cut to the room left; the fill level advances by exactly that */
+	{
+		int base = slot.inpacket.seqno != s0.in_seq ? 0 : s0.in_len;
+		int room = (int)sizeof(slot.inpacket.data) - base;
+		int want = g_unpack_ret < room ? g_unpack_ret : room;
+		__CPROVER_assert(g_in_cpy_calls <= 1, "at most one append per query");
+		__CPROVER_assert(g_in_cpy_calls == 0 || (auth && g_in_cpy_src == g_unp_buf && g_in_cpy_off == (size_t)base && g_in_cpy_n == (size_t)want), "the appended bytes are the decoder's output, copied to the fill level, cut to the room left");
+		__CPROVER_assert(g_full_calls == 1 || slot.inpacket.len == (g_in_cpy_calls ? base + want : slot.inpacket.seqno != s0.in_seq ? 0 : s0.in_len), "the fill level advances by exactly the bytes appended");
+	}
+#else
+	__CPROVER_assert(g_in_cpy_calls == 0, "a ping appends nothing upstream");
+#endif
 	__CPROVER_assert(g_sendto == 0, "no raw send");
 	__CPROVER_assert(slot.authenticated == s0.authenticated && slot.authenticated_raw == s0.authenticated_raw && slot.seed == s0.seed && slot.conn == s0.conn && slot.encoder == s0.encoder && slot.downenc == s0.downenc && slot.fragsize == s0.fragsize && slot.lazy == s0.lazy && slot.options_locked == s0.options_locked && slot.hostlen == s0.hostlen, "stream commands never change login state or session options");
 	/* C14/C16: a duplicate is remembered with the held query it duplicates (same type, same name), so that the extra answer
